@@ -206,6 +206,44 @@ fn ref_read(doc: &str) -> Result<Vec<T3>, String> {
     Ok(out)
 }
 
+/// An independent LEXICAL check of the bytes written, next to the reference reader above (it shares only the character
+/// classes with it): every character is in the Char production (XML 1.0 [2]); every start tag / end tag / empty element
+/// tag carries a QName (Namespaces in XML [7]: NCName, or NCName ':' NCName -- so `prop:` and `:x` and `a:b:c` and `1a`
+/// are refused), every attribute name is a QName, attribute values are quoted and hold no `<`.  None = no objection.
+fn lexical_findings(doc: &str) -> Option<String> {
+    if let Some((n, c)) = doc.chars().enumerate().find(|(_, c)| !is_xml_char(*c)) { return Some(format!("character {n} of the document, U+{:04X}, is outside the Char production of XML 1.0", c as u32)); }
+    let qname_problem = |n: &str| -> Option<String> { let parts: Vec<&str> = n.split(':').collect(); if parts.len() > 2 || parts.iter().any(|p| !is_ncname(p)) { Some(format!("{n:?} is not a QName")) } else { None } };
+    let cs: Vec<char> = doc.chars().collect(); let n = cs.len(); let mut i = 0;
+    while i < n {
+        if cs[i] != '<' { i += 1; continue; }
+        i += 1;
+        if i >= n { return Some("the document ends inside a tag".into()); }
+        if cs[i] == '?' { while i + 1 < n && !(cs[i] == '?' && cs[i + 1] == '>') { i += 1; } i += 2; continue; }
+        if cs[i] == '!' { while i < n && cs[i] != '>' { i += 1; } i += 1; continue; }
+        let end_tag = cs[i] == '/'; if end_tag { i += 1; }
+        let st = i; while i < n && !is_xml_ws(cs[i]) && cs[i] != '>' && cs[i] != '/' { i += 1; }
+        let name: String = cs[st..i].iter().collect();
+        if let Some(p) = qname_problem(&name) { return Some(format!("the {} name {p}", if end_tag { "end tag" } else { "element" })); }
+        loop {
+            while i < n && is_xml_ws(cs[i]) { i += 1; }
+            if i >= n { return Some(format!("the tag <{name} is not closed")); }
+            if cs[i] == '>' { i += 1; break; }
+            if cs[i] == '/' { i += 1; continue; }
+            if end_tag { return Some(format!("the end tag </{name} has attributes")); }
+            let st = i; while i < n && cs[i] != '=' && !is_xml_ws(cs[i]) && cs[i] != '>' && cs[i] != '/' { i += 1; }
+            let an: String = cs[st..i].iter().collect();
+            if let Some(p) = qname_problem(&an) { return Some(format!("the attribute name {p} (element {name})")); }
+            while i < n && is_xml_ws(cs[i]) { i += 1; }
+            if i >= n || cs[i] != '=' { return Some(format!("attribute {an} of {name} has no value")); } i += 1;
+            while i < n && is_xml_ws(cs[i]) { i += 1; }
+            let q = match cs.get(i) { Some(c @ ('"' | '\'')) => *c, _ => return Some(format!("the value of attribute {an} of {name} is not quoted")) }; i += 1;
+            while i < n && cs[i] != q { if cs[i] == '<' { return Some(format!("`<` in the value of attribute {an} of {name}")); } i += 1; }
+            if i >= n { return Some(format!("the value of attribute {an} of {name} is not closed")); } i += 1;
+        }
+    }
+    None
+}
+
 // ---------------------------------------------------------------------------------------------
 // the implementation under test
 // ---------------------------------------------------------------------------------------------
@@ -536,7 +574,7 @@ fn c_optstr(r: &Option<String>) -> String { match r { Some(s) => format!("(Some 
 // generation
 // ---------------------------------------------------------------------------------------------
 #[derive(Clone, Copy, PartialEq, Debug)]
-enum Flavour { Clean, WsOnly, BnodeDigit, ReservedPred, NoSplitPred, IllegalChar, Cr, BadLang, Generalised, Quoted, IriShapes, Relative }
+enum Flavour { Clean, WsOnly, BnodeDigit, ReservedPred, NoSplitPred, IllegalChar, Cr, BadLang, Generalised, Quoted, IriShapes, Relative, NsPred, Combo, Matrix }
 const SUBJECTS: [&str; 7] = ["http://e/s", "http://e/s?a=1&b='2'", "http://example.org/ns#x", "urn:x:y", "http://e/\u{e9}", "http://e/\u{1F600}/p", "http://e/t"];
 const BNODES: [&str; 11] = ["b", "b1", "a-b", "b.c", "_x", "__x", "_1", "_0a", "\u{e9}t", "riog00000001", "\u{10000}a"];
 const BAD_BNODES: [&str; 4] = ["0", "0a", "1.2", "9_"];
@@ -565,6 +603,50 @@ fn gen_pred(r: &mut Rng) -> String {
     for _ in 0..r.range(1, 7) { let p = r.ps(&PC); if p == "#" { if frag { continue; } frag = true; } s.push_str(p); }
     if ncname_suffix(&s).is_empty() { s.push('k'); }
     s
+}
+// ---------------------------------------------------------------------------------------------
+// predicates as NAMESPACE x REMAINDER: every namespace that some layer treats specially (rdf:, rdfs:, xsd:, the rdf
+// namespace without its '#', the xmlns namespace) and ordinary ones, each with every kind of remainder: none, no XML
+// local name (digits, '-', '.', a trailing '#'), the names RDF/XML reserves and their near misses, ordinary names,
+// names that only start late ("1a"), non-ASCII names, a ':' inside.  What must happen is decided by the oracle from the
+// XML grammar alone (classify / the reference reader / lexical_findings), never by the way the serializer decides.
+// ---------------------------------------------------------------------------------------------
+const NS_SPECIAL: [&str; 8] = ["http://www.w3.org/1999/02/22-rdf-syntax-ns#", "http://www.w3.org/2000/01/rdf-schema#", "http://www.w3.org/2001/XMLSchema#", "http://www.w3.org/1999/02/22-rdf-syntax-ns", "http://e/ns#", "http://e/", "urn:x:", "http://e/p?x="];
+const REMAINDERS: [&str; 44] = ["", "1", "42", "-x", ".", "1-2", "a#", "-", "#", "a:1", "a/", "\u{b7}", "\u{300}", "type", "_1", "_", "_0", "value", "first", "x1", "1a", "-a", "a.b", "a:b", "%41", "\u{e9}", "\u{b7}a", "\u{300}x", "\u{10000}",
+    "li", "lix", "li1", "LI", "Description", "about", "ID", "RDF", "nodeID", "resource", "datatype", "parseType", "bagID", "aboutEach", "aboutEachPrefix"];
+/// the remainders every namespace is combined with in the directed matrix (the rdf: namespace gets all of REMAINDERS)
+const REMAINDERS_SHORT: [&str; 14] = ["", "1", "-x", ".", "a#", "a:1", "type", "x1", "1a", "\u{e9}", "%41", "li", "Description", "ID"];
+fn valid_iri(p: &str) -> bool { sophia_iri::IriRef::new(p).is_ok() && has_scheme(p) }
+fn gen_ns_pred(r: &mut Rng) -> String {
+    loop {
+        let ns = if r.chance(1, 2) { NS_SPECIAL[0] } else { r.ps(&NS_SPECIAL) };
+        let mut rem = r.ps(&REMAINDERS).to_string();
+        if r.chance(1, 6) { const RC: [&str; 12] = ["1", "9", "-", ".", "_", "a", "Z", "\u{b7}", "li", "ID", "#", ":"]; rem.clear(); for _ in 0..r.range(0, 4) { rem.push_str(r.ps(&RC)); } }
+        let p = format!("{ns}{rem}");
+        if valid_iri(&p) { return p; }
+    }
+}
+/// the predicates of the directed matrix (valid IRIs only), in a fixed order
+fn matrix_preds() -> Vec<String> {
+    let mut v = vec![];
+    for (k, ns) in NS_SPECIAL.iter().enumerate() { let rems: &[&str] = if k == 0 { &REMAINDERS } else { &REMAINDERS_SHORT }; for rem in rems { let p = format!("{ns}{rem}"); if valid_iri(&p) && !v.iter().any(|x: &String| *x == p) { v.push(p); } } }
+    v
+}
+/// blank node labels that are not XML names as they are (a serializer has to rename or refuse them), and their neighbours
+const ODD_BNODES: [&str; 10] = ["0", "0a", "1.2", "9_", "1", "42x", "_", "_b", "__x", "_1"];
+const MATRIX_SUBJECTS: [(bool, &str); 9] = [(false, "http://e/s"), (false, "http://e/s?a=1&b='2'"), (true, "b1"), (true, "1"), (true, "42x"), (true, "_"), (true, "_b"), (true, "__x"), (true, "\u{e9}t")];
+fn matrix_subject(k: usize) -> ST { let (b, x) = MATRIX_SUBJECTS[k % MATRIX_SUBJECTS.len()]; if b { bnode(x) } else { iri(x) } }
+/// every kind of object: nodes (blank node labels that need renaming included), literals of the three kinds with legal
+/// text, with text outside the Char production (C0 controls, U+FFFE, U+FFFF), and the two recorded reader deviations
+fn matrix_objects() -> Vec<ST> {
+    let xs = format!("{XSD}string");
+    vec![iri("http://e/o"), bnode("b1"), bnode("7"), bnode("_x"), lit_dt("plain <&> \"text\"", &xs), lit_dt("\u{1}", &xs), lit_lang("x\u{FFFE}", "en"), lit_dt("a\u{0}b", &format!("{XSD}token")),
+        lit_dt("1", &format!("{XSD}integer")), lit_lang("chat", "fr-BE"), lit_dt(" ", &xs), lit_lang("a\rb", "en"), lit_dt("<b>\u{B}</b>", &format!("{RDF}XMLLiteral")), lit_dt("abc\u{FFFF}", &xs), lit_lang("\u{1F}y", "de-Latn-DE-1996"), lit_dt("\u{D7FF}\u{E000}\u{FFFD}\u{10000}\u{10FFFF}", &xs)]
+}
+/// a literal of a random kind whose text holds one character outside the Char production
+fn gen_illegal_lit(r: &mut Rng) -> ST {
+    let t = format!("{}{}{}", gen_text(r), r.ps(&ILLEGAL), gen_text(r));
+    match r.below(4) { 0 | 1 => lit_dt(&t, &format!("{XSD}string")), 2 => lit_lang(&t, r.ps(&LANGS)), _ => lit_dt(&t, r.ps(&DATATYPES)) }
 }
 fn gen_node(r: &mut Rng) -> ST { if r.chance(2, 3) { iri(r.ps(&SUBJECTS)) } else { bnode(r.ps(&BNODES)) } }
 fn gen_lit(r: &mut Rng) -> ST {
@@ -786,7 +868,8 @@ fn judge(out: &Ser, fed: &[T3], known: bool, base: &str, cache: &mut HashMap<Str
     match out {
         Ser::Panic => f.push(("panic", "the serializer panicked".to_string())),
         Ser::Err(e) => if in_class { f.push(("failed-in-class", format!("serialisation failed inside the guaranteed class: {e}"))); },
-        Ser::Doc(d) => { let (pr, rr) = parses(cache, d);
+        Ser::Doc(d) => { if let Some(l) = lexical_findings(d) { f.push(("not-xml", format!("the bytes written are not well-formed XML with qualified names: {l}; document {d:?}"))); }
+            let (pr, rr) = parses(cache, d);
             match rr { Err(e) => f.push(("not-xml", format!("the document is not a well-formed namespace-conformant RDF/XML document: reference reader: {e}; document {d:?}"))),
                 Ok(back) => if !iso(&expected, back) && !(known && iso(&exp_cr, back)) { f.push(("ref-differs", format!("the document does not denote the graph (reference XML reader): read {back:?}, expected {expected:?}; document {d:?}"))); } }
             let nb = needs_base(&expected);
@@ -803,18 +886,34 @@ fn c_obs(s: &Ser, with_doc: bool) -> String {
     match s { Ser::Doc(d) => if with_doc { format!("(ObsDoc {})", coq_str(d)) } else { "ObsSomeDoc".into() }, Ser::Err(e) if e.contains("named or blank subject") => "ObsErrSubj".into(), Ser::Err(e) if e.contains("named, blank or literal object") => "ObsErrObj".into(), Ser::Err(e) if e.contains("RDF/XML can not express") => "ObsErrInput".into(), _ => "ObsOther".into() }
 }
 
+/// the Coq obligations of one (small) graph at one indentation: outcome (exact bytes when `with_doc`), the independent
+/// statement of what must be refused and the lexical well-formedness of the bytes (out_ok = ser_ok && refuse_ok && wf_ok),
+/// and both parses against the model readers
+fn coq_small(cg: &str, guard: bool, g: &[T3], ind: usize, with_doc: bool, out: &Ser, ps: Option<&Parses>) -> Vec<String> {
+    let expected: Vec<T3> = g.iter().filter(|t| representable(t)).cloned().collect();
+    let node_out = |x: &ST| -> ST { match x { SimpleTerm::BlankNode(b) if guard && b.as_str().starts_with(|c: char| c.is_ascii_digit() || c == '_') => bnode(&format!("_{}", b.as_str())), _ => x.clone() } };
+    let std_parse: Vec<String> = expected.iter().map(|t| { let mut t = [node_out(&t[0]), t[1].clone(), node_out(&t[2])]; if let SimpleTerm::LiteralLanguage(l, tag) = &t[2] { t[2] = lit_lang(l, &tag.as_str().to_ascii_lowercase()); } c_t3(&t) }).collect();
+    let mut parts = vec![format!("out_ok {cg} {ind} g {}", c_obs(out, with_doc))];
+    if let (Ser::Doc(_), Some((pr, rr))) = (out, ps) {
+        for (strict, x) in [(false, pr), (true, rr)] {
+            parts.push(match x { Ok(b) if b.iter().map(c_t3).collect::<Vec<_>>() == std_parse => format!("parse_std {cg} {} {ind} g", coq_bool(strict)), _ => format!("parse_ok {cg} {} {ind} g {}", coq_bool(strict), c_parse(x)) });
+        }
+    }
+    parts
+}
+
 fn main() {
     let a = parse_args();
     let default_hook = std::panic::take_hook();
     std::panic::set_hook(Box::new(move |info| { if !QUIET.load(Ordering::SeqCst) { default_hook(info) } }));
     let mut sum = Summary::default();
     sum.rule = "case = (A, 5 of 6) a graph of 0..5 triples (subjects IRI/blank with repeated and interleaved subjects; predicates from a list of namespace split points plus random paths; objects IRI/blank/literal with text over markup characters, whitespace runs, leading/trailing newlines, TAB, entity look-alikes, ]]>, non-BMP and boundary code points; language tags; datatypes incl. rdf:XMLLiteral), \
-of one flavour: clean, or exactly one kind of input outside a class (whitespace-only literal, blank node label starting with a digit, reserved rdf: name as predicate, predicate without NCName suffix, non-XML character, CR, non-BCP47 tag, generalised triple, quoted triple), serialised with every indentation 0..8 (and one of 9..64) through serialize_triples(vec.triples()) on a stringifier, and -- at indentation 0 and two random ones -- through EVERY other public entry point: \
+of one flavour: clean, or (except Combo) exactly one kind of input outside a class (whitespace-only literal, blank node label starting with a digit, reserved rdf: name as predicate, predicate without NCName suffix, non-XML character, CR, non-BCP47 tag, generalised triple, quoted triple), serialised with every indentation 0..8 (and one of 9..64) through serialize_triples(vec.triples()) on a stringifier, and -- at indentation 0 and two random ones -- through EVERY other public entry point: \
 serialize_triples on 17 kinds of source (iterators, adapters, slice, set containers, in-memory graphs, Rio triples in Trusted, the RDF/XML parser, dataset quads), serialize_graph on 16 kinds of graph (Vec, references, slice, HashSet, BTreeSet, FastGraph, LightGraph, dataset views: graph(name), union, partial union, as_dataset), \
 every way of building the config / serializer, 7 kinds of writer (short writes, interruptions, buffered), a writer with a byte limit, four calls on one serializer, chaining; each judged by the same round-trip oracle and compared with the baseline; the parser driven in 14 ways on every document; \
 (A', directed, the first 55 cases of every run) the catalogue of 70 IRIs of every RFC 3986/3987 shape (schemes with + - . digits, upper case, one letter; no authority, empty authority, userinfo, port, empty port, IPv6 / IPvFuture literal; empty, rootless, absolute paths, dot segments, percent escapes, non-ASCII; query only, fragment only) and of 40 relative references of every kind, two per case, each as subject, predicate, object and datatype, through the same machinery as A; \
 the flavours IriShapes (3 of 25 graphs of A: two thirds of the IRIs of every position built from random components) and Relative (2 of 25: one to three relative references in addition -- generalized input: the serializer may refuse, else the document must read back verbatim through the reference reader and, under a base, resolved per RFC 3986 5.2); \
-(B, 1 of 6) a raw element text and a raw attribute value (references, stray ampersands, CR/LF/TAB, non-XML characters) fed to the real parser and to the reference reader; \
+(A'', directed, one case per predicate of the matrix, after A') every predicate NAMESPACE x REMAINDER (rdf:, rdfs:, xsd:, the rdf namespace without '#', ordinary ones; remainders: none, no XML local name, reserved names and near misses, late-starting, non-ASCII, with ':') with each of 16 kinds of object (nodes, blank node labels that need renaming, literals of the three kinds with legal text and with text outside the Char production, the recorded reader deviations) and 9 kinds of subject rotating, as one-triple graphs, then behind / between expressible triples; the flavours NsPred (2 of 30: such predicates in random graphs, through every entry point) and Combo (3 of 30: two or three out-of-class ingredients at once, mostly in ONE triple: renamed blank node subject / object, non-Char literal of any kind, reserved / unsplittable / special-namespace predicate, generalised or quoted triple); every document is also checked LEXICALLY (Char production, every tag and attribute name a QName) independently of the reference reader, and in Coq (wf_ok), and the model states separately which graphs must be refused (refuse_ok); (B, 1 of 6) a raw element text and a raw attribute value (references, stray ampersands, CR/LF/TAB, non-XML characters) fed to the real parser and to the reference reader; \
 non-trivial = A: at least one representable triple and (a literal with a character that needs escaping or whitespace at an end, or a predicate not ending in a plain ASCII name after '/' or '#'), B: the raw string contains '&' or whitespace; distinct = distinct inputs".into();
     // Which serializer is under test?  The proposed repair (build/proposed/C18.diff) refuses text outside XML's Char
     // production; the Coq model has both variants (guard = true / false) and the cases are checked against the one present.
@@ -822,6 +921,8 @@ non-trivial = A: at least one representable triple and (a literal with a charact
     sum.extra.push(("serializer_has_repair".into(), guard.to_string()));
     let cg = coq_bool(guard);
     let base = Rng::new(a.seed);
+    let n_directed = ABS_SHAPES.len() / 2 + REL_SHAPES.len() / 2; let mpreds = matrix_preds(); let mobjs = matrix_objects();
+    sum.extra.push(("matrix_predicates".into(), mpreds.len().to_string()));
     let mut cases = vec![]; let mut seen = std::collections::HashSet::new();
     let range: Vec<usize> = match a.only { Some(i) => vec![i], None => (0..a.n).collect() };
     let verbose = a.only.is_some();
@@ -829,6 +930,47 @@ non-trivial = A: at least one representable triple and (a literal with a charact
         let mut r = base.fork(idx as u64);
         sum.evaluations += 1;
         let directed = directed_case(idx);
+        if idx >= n_directed && idx < n_directed + mpreds.len() {
+            // ---------------- stream A'': the directed matrix predicate x subject x object ----------------
+            // one predicate per case (every namespace x remainder), with EVERY kind of object, the kind of subject
+            // rotating, as one-triple graphs (an error in one triple can not hide the next); then the triple behind and
+            // between expressible ones.  Each graph: indentation 0 and one of 1..8, the full round-trip oracle (judge),
+            // the lexical check of the bytes, and the Coq model (outcome, bytes, both parses, what must be refused).
+            let j = idx - n_directed; let p = iri(&mpreds[j]); let base_iri: &str = BASES[idx % BASES.len()]; let xs = format!("{XSD}string");
+            let mut graphs: Vec<Vec<T3>> = vec![];
+            for (oi, o) in mobjs.iter().enumerate() { graphs.push(vec![[matrix_subject(j + oi), p.clone(), o.clone()]]); }
+            let focus = |k: usize| -> T3 { [matrix_subject(j + k), p.clone(), mobjs[(j + k) % mobjs.len()].clone()] };
+            let clean: T3 = [iri("http://e/t"), iri("http://e/q"), lit_dt("ok", &xs)];
+            let t1 = focus(3); graphs.push(vec![[t1[0].clone(), iri("http://e/q"), lit_dt("ok", &xs)], t1]);
+            graphs.push(vec![clean.clone(), focus(5), clean.clone()]);
+            graphs.push(vec![focus(1), focus(2)]);
+            let mut cache: HashMap<String, Parses> = HashMap::new(); let mut parts: Vec<String> = vec![]; let mut mf: Vec<String> = vec![];
+            for (gi, g) in graphs.iter().enumerate() {
+                let k = 1 + (j + gi) % 8;
+                let outs: Vec<(usize, Ser)> = [0usize, k].iter().map(|&ind| (ind, serialize(g, ind))).collect();
+                for (ind, out) in &outs { for (_, d) in judge(out, g, true, base_iri, &mut cache) { mf.push(format!("indentation {ind}: {d}; graph {g:?}")); } }
+                let same = |a: &Result<Vec<T3>, String>, b: &Result<Vec<T3>, String>| match (a, b) { (Ok(x), Ok(y)) => exact(x, y), (Err(_), Err(_)) => true, _ => false };
+                match (&outs[0].1, &outs[1].1) {
+                    (Ser::Doc(d0), Ser::Doc(dk)) => { let p0 = parses(&mut cache, d0).clone(); let pk = parses(&mut cache, dk).clone();
+                        if !same(&p0.0, &pk.0) || !same(&p0.1, &pk.1) { mf.push(format!("RDF/XML indentation changes the parsed result: indentation 0 gives {:?} / {:?}, indentation {k} gives {:?} / {:?}; graph {g:?}", p0.0, p0.1, pk.0, pk.1)); } }
+                    (Ser::Err(_), Ser::Err(_)) => {}
+                    (a0, ak) => if !matches!(a0, Ser::Panic) && !matches!(ak, Ser::Panic) { mf.push(format!("RDF/XML indentation changes the outcome: indentation 0 gives {}, indentation {k} gives {}; graph {g:?}", show(a0), show(ak))); }
+                }
+                let mut gp = vec![];
+                for (ind, out) in &outs { let ps = match out { Ser::Doc(d) => Some(parses(&mut cache, d).clone()), _ => None }; gp.extend(coq_small(cg, guard, g, *ind, (*ind == 0) == ((j + gi) % 2 == 0), out, ps.as_ref())); }
+                parts.push(format!("(let g := {} in {})", c_graph(g), gp.join(" && ")));
+                sum.bump("matrix:graphs"); sum.bump(match &outs[0].1 { Ser::Doc(_) => "matrix:written", Ser::Err(_) => "matrix:refused", Ser::Panic => "matrix:panic" });
+                if verbose { println!("CASE {idx} (matrix) graph {gi}: {g:?}"); for (ind, out) in &outs { println!(" [{ind}] {}", show(out)); } }
+            }
+            if verbose { for f in &mf { println!(" ORACLE (matrix): {f}"); } }
+            if let Some(f) = mf.first() { let extra = mf.len() - 1; sum.bump("oracle:failing-case");
+                sum.oracle_failures.push((idx.to_string(), format!("RDF/XML round trip: directed matrix, predicate <{}>: {f}{}", mpreds[j], if extra > 0 { format!(" (+{extra} more findings of this case over subjects, objects and indentations)") } else { String::new() }))); }
+            sum.bump("stream:matrix"); sum.bump("flavour:Matrix");
+            if seen.insert(format!("M{}", mpreds[j])) { sum.distinct_nontrivial += 1; }   // (every case holds the literal `plain <&> "text"`)
+            if sum.samples.len() < 6 && j % 40 == 1 { sum.samples.push(format!("case {idx}: directed matrix, predicate <{}>, {} graphs", mpreds[j], graphs.len())); }
+            cases.push((idx, parts.join(" && ")));
+            continue;
+        }
         if directed.is_none() && r.chance(1, 6) {
             // ---------------- stream B: the readers on raw text / attribute values ----------------
             const RP: [&str; 34] = ["&", "&", ";", "#", "#x", "lt", "gt", "amp", "apos", "quot", "&lt;", "&gt;", "&amp;", "&apos;", "&quot;", "&#32;", "&#x20;", "&#10;", "&#13;", "&#9;", "&#x1F600;", "&#0;", "&#1;", "&#xD800;", "&#x110000;", "&#65534;",
@@ -853,7 +995,7 @@ non-trivial = A: at least one representable triple and (a literal with a charact
             continue;
         }
         // ---------------- stream A: graphs ----------------
-        let flavour = match &directed { Some((f, _)) => *f, None => match r.below(25) { 0..=10 => Flavour::Clean, 11 => Flavour::WsOnly, 12 => Flavour::BnodeDigit, 13 => Flavour::ReservedPred, 14 => Flavour::NoSplitPred, 15 => Flavour::IllegalChar, 16 => Flavour::Cr, 17 => Flavour::BadLang, 18 => Flavour::Generalised, 19 => Flavour::Quoted, 20..=22 => Flavour::IriShapes, _ => Flavour::Relative } };
+        let flavour = match &directed { Some((f, _)) => *f, None => match r.below(30) { 0..=10 => Flavour::Clean, 11 => Flavour::WsOnly, 12 => Flavour::BnodeDigit, 13 => Flavour::ReservedPred, 14 => Flavour::NoSplitPred, 15 => Flavour::IllegalChar, 16 => Flavour::Cr, 17 => Flavour::BadLang, 18 => Flavour::Generalised, 19 => Flavour::Quoted, 20..=22 => Flavour::IriShapes, 23 | 24 => Flavour::Relative, 25 | 26 => Flavour::NsPred, _ => Flavour::Combo } };
         let shapes = matches!(flavour, Flavour::IriShapes | Flavour::Relative);
         let base_iri: &str = BASES[idx % BASES.len()];
         let mut rejected = 0u64;
@@ -874,7 +1016,21 @@ non-trivial = A: at least one representable triple and (a literal with a charact
         let some_s = iri("http://e/s"); let some_p = iri("http://e/p");
         if g.is_empty() && flavour != Flavour::Clean { g.push([some_s.clone(), some_p.clone(), some_s.clone()]); }
         match flavour {
-            Flavour::Clean | Flavour::IriShapes => {}
+            Flavour::Clean | Flavour::IriShapes | Flavour::Matrix => {}
+            // a predicate of a special namespace with any remainder (in class or not: the oracle decides)
+            Flavour::NsPred => { for _ in 0..r.range(1, 2) { let k = r.below(g.len()); g[k][1] = iri(&gen_ns_pred(&mut r)); } }
+            // two or three out-of-class ingredients at once, more often than not in ONE triple: whichever check the
+            // serializer makes first must not switch the others off (none of them touches the recorded reader deviations)
+            Flavour::Combo => { for _ in 0..r.range(2, 3) { let k = if r.chance(2, 3) { k } else { r.below(g.len()) };
+                match r.below(9) {
+                    0 | 1 => g[k][0] = bnode(r.ps(&ODD_BNODES)),
+                    2 => g[k][2] = bnode(r.ps(&ODD_BNODES)),
+                    3 | 4 => g[k][2] = gen_illegal_lit(&mut r),
+                    5 => g[k][1] = iri(&gen_ns_pred(&mut r)),
+                    6 => g[k][1] = iri(&format!("{RDF}{}", r.ps(&RESERVED))),
+                    7 => g[k][1] = iri(r.ps(&NOSPLIT_PREDS)),
+                    _ => { let q = triple(some_s.clone(), some_p.clone(), lit_dt("x", &format!("{XSD}string"))); let t: T3 = if r.chance(1, 2) { [var("v"), some_p.clone(), some_s.clone()] } else if r.chance(1, 2) { [q, some_p.clone(), some_s.clone()] } else { [some_s.clone(), some_p.clone(), q] }; let at = r.range(k, g.len()); g.insert(at, t); }
+                } } }
             // relative references (generalized input) in one to three places: subject, object, datatype, predicate
             Flavour::Relative => if directed.is_none() { for _ in 0..r.range(1, 3) { let k = r.below(g.len()); let x = gen_shape(&mut r, true, &mut rejected);
                 match r.below(7) { 0 | 1 => g[k][0] = iri(&x), 2 | 3 => g[k][2] = iri(&x), 4 | 5 => { let t = gen_text(&mut r); g[k][2] = lit_dt(&t, &x) } _ => g[k][1] = iri(&predify(&x)) } } }
@@ -884,7 +1040,9 @@ non-trivial = A: at least one representable triple and (a literal with a charact
                 if r.chance(1, 2) { let twin = bnode(&format!("_{l}")); let t: T3 = if r.chance(1, 2) { [twin, some_p.clone(), lit_dt("twin", &format!("{XSD}string"))] } else { [some_s.clone(), iri("http://e/q"), twin] }; g.push(t); } }
             Flavour::ReservedPred => { g[k][1] = iri(&format!("{RDF}{}", r.ps(&RESERVED))); }
             Flavour::NoSplitPred => { g[k][1] = iri(r.ps(&NOSPLIT_PREDS)); }
-            Flavour::IllegalChar => { let t = format!("{}{}{}", gen_text(&mut r), r.ps(&ILLEGAL), gen_text(&mut r)); g[k][2] = lit_dt(&t, &format!("{XSD}string")); }
+            Flavour::IllegalChar => { g[k][2] = gen_illegal_lit(&mut r);
+                // ... in a triple whose subject needs renaming, or next to one, half of the time
+                if r.chance(1, 2) { let k2 = if r.chance(2, 3) { k } else { r.below(g.len()) }; g[k2][0] = bnode(r.ps(&ODD_BNODES)); } }
             Flavour::Cr => { let t = format!("a{}{}b", gen_text(&mut r), r.ps(&["\r", "\r\n", "\r\r", "\n\r"])); g[k][2] = if r.chance(1, 2) { lit_dt(&t, &format!("{XSD}string")) } else { lit_lang(&t, "en") }; }
             Flavour::BadLang => { g[k][2] = lit_lang("x y", r.ps(&BAD_LANGS)); }
             Flavour::Generalised => { let t: T3 = match r.below(4) { 0 => [lit_dt("1", &format!("{XSD}string")), some_p.clone(), some_s.clone()], 1 => [some_s.clone(), bnode("b"), some_s.clone()], 2 => [some_s.clone(), some_p.clone(), var("v")], _ => [var("v"), some_p.clone(), lit_lang("x", "en")] }; let at = r.below(g.len() + 1); g.insert(at, t); }
@@ -923,6 +1081,7 @@ non-trivial = A: at least one representable triple and (a literal with a charact
                 Ser::Panic => fails.push(describe("panic", format!("serialize_triples panicked (indentation {ind})"))),
                 Ser::Err(e) => { if in_class { fails.push(describe("serialisation failed inside the guaranteed class", format!("indentation {ind}: {e}"))); } }
                 Ser::Doc(d) => {
+                    if let Some(l) = lexical_findings(d) { fails.push(describe("the bytes written are not well-formed XML with qualified names", format!("indentation {ind}: {l}; document {d:?}"))); }
                     match rr.as_ref().unwrap() {
                         Err(e) => fails.push(describe("the document is not a well-formed namespace-conformant RDF/XML document", format!("indentation {ind}: reference reader: {e}; document {d:?}"))),
                         Ok(back) => if !iso(&expected, back) { fails.push(describe("the document does not denote the graph (reference XML reader)", format!("indentation {ind}: read {back:?}, expected {expected:?}; document {d:?}"))); }
@@ -1050,7 +1209,7 @@ non-trivial = A: at least one representable triple and (a literal with a charact
             let (s, pr, rr) = &runs[ind];
             let with_doc = (ind == 0) == (idx % 2 == 0);
             let obs = c_obs(s, with_doc);
-            parts.push(format!("ser_ok {cg} {ind} g {obs}"));
+            parts.push(format!("out_ok {cg} {ind} g {obs}"));   // = ser_ok && refuse_ok && wf_ok (C18/Refuse.v)
             if let (Some(pr), Some(rr)) = (pr, rr) {
                 // IriShapes / Relative: the reader without a base also demands an IRI (RFC 3987 grammar, in Coq) wherever it resolves
                 if shapes { parts.push(match pr { Ok(b) if b.iter().map(c_t3).collect::<Vec<_>>() == std_parse => format!("nobase_std {cg} {ind} g"), _ => format!("nobase_ok {cg} {ind} g {}", c_parse(pr)) }); }
@@ -1064,11 +1223,11 @@ non-trivial = A: at least one representable triple and (a literal with a charact
             for (i2, fed, out) in &coq_alt { if *i2 != ind || !seen_fed.insert(format!("{fed:?}")) { continue; }
                 let wd = with_doc && docs < 3; if wd { docs += 1; }
                 let nodup = set_key(fed).len() == fed.len();
-                if set_key(fed) == gset && nodup { parts.push(format!("path_ok CSet {cg} {ind} g {} {}", c_graph(fed), c_obs(out, wd))); } else { parts.push(format!("ser_ok {cg} {ind} {} {}", c_graph(fed), c_obs(out, wd))); } }
+                if set_key(fed) == gset && nodup { parts.push(format!("path_ok CSet {cg} {ind} g {} {}", c_graph(fed), c_obs(out, wd))); } else { parts.push(format!("out_ok {cg} {ind} {} {}", c_graph(fed), c_obs(out, wd))); } }
             if with_doc { for (i2, feds, total) in &coq_calls { if *i2 == ind { parts.push(format!("calls_ok {cg} {ind} {} {}", coq_list(feds.iter().map(|f| c_graph(f))), c_optstr(total))); } } }
             for (i2, limit, ok) in &coq_limited { if *i2 == ind { parts.push(format!("limited_ok {cg} {ind} g {limit} {}", coq_bool(*ok))); } }
         }
-        if idx % 4 == 0 { parts.push(format!("ser_ok {cg} {kbig} g {}", c_obs(&big, true))); }
+        if idx % 4 == 0 { parts.push(format!("out_ok {cg} {kbig} g {}", c_obs(&big, true))); }
         if shapes {
             // every IRI of the case against the RFC 3987 grammar: absolute or not, as the harness built it; the harness's
             // RFC 3986 resolution of every relative reference against the specification of 5.2 in Coq
@@ -1083,7 +1242,7 @@ non-trivial = A: at least one representable triple and (a literal with a charact
         cases.push((idx, format!("let g := {} in {}", c_graph(&g), parts.join(" && "))));
     }
     if a.only.is_none() {
-        let header = "From Sophia.C18 Require Import Model Paths Iris.\n";
+        let header = "From Sophia.C18 Require Import Model Paths Iris Refuse.\n";
         let bad: Vec<&str> = ABS_SHAPES.iter().chain(REL_SHAPES.iter()).copied().filter(|x| sophia_iri::IriRef::new(*x).is_err()).collect();
         sum.extra.push(("catalogue_shapes_refused_by_IriRef_new".into(), format!("{bad:?}")));
         sum.shards = write_shards(&a.out, header, &cases, a.shards);
